@@ -92,6 +92,17 @@ func (sv structValue) findField(name string) (*reflect.StructField, bool) {
 	return nil, false
 }
 
+// A MethodError is the error that a struct method returned when a template read it as a property.
+// Evaluating the expression fails with it.
+type MethodError struct {
+	Err error
+}
+
+func (e MethodError) Error() string { return e.Err.Error() }
+
+// Cause returns the error that the method returned.
+func (e MethodError) Cause() error { return e.Err }
+
 func (sv structValue) invoke(fv reflect.Value) Value {
 	if fv.IsNil() {
 		return nilValue
@@ -106,7 +117,7 @@ func (sv structValue) invoke(fv reflect.Value) Value {
 	}
 	results := fv.Call([]reflect.Value{})
 	if len(results) > 1 && !results[1].IsNil() {
-		panic(results[1].Interface())
+		panic(MethodError{results[1].Interface().(error)})
 	}
 	return ValueOf(results[0].Interface())
 }
